@@ -24,7 +24,6 @@ package validate
 
 //@ func lengthCheckMany(name, constraint, length, value) (err)
 //@   inline
-//@   loop 0: invariant forall j :: 0 <= j && j <= rangeindex ==> entryLenOK(value[j], length)
 
 //@ func checkOptionsLengths(opts) (err)
 //@   requires opts != nil
@@ -78,7 +77,6 @@ package validate
 
 //@ func byteCheckAny(size, given, allowed) (err)
 //@   ensures[iff] err == nil <==> len(allowed) == 0 || (exists i :: 0 <= i && i < len(allowed) && bc(given, allowed[i], size))
-//@   loop 0: invariant forall j :: 0 <= j && j <= rangeindex ==> !bc(given, allowed[j], size)
 
 //@ define exactOK(q, o) = bc(q.TdQuoteBody.MrSeam, o.TdQuoteBodyOptions.MrSeam, 48) && bc(q.TdQuoteBody.TdAttributes, o.TdQuoteBodyOptions.TdAttributes, 8)
 //@ |   && bc(q.TdQuoteBody.Xfam, o.TdQuoteBodyOptions.Xfam, 8) && bc(q.TdQuoteBody.MrTd, o.TdQuoteBodyOptions.MrTd, 48)
@@ -101,7 +99,6 @@ package validate
 //@ func isSvnHigherOrEqual(quoteSvn, optionSvn) (r)
 //@   requires len(optionSvn) == 0 || len(optionSvn) == len(quoteSvn)
 //@   ensures[iff] r <==> (len(optionSvn) == 0 || (forall i :: 0 <= i && i < len(quoteSvn) ==> quoteSvn[i] >= optionSvn[i]))
-//@   loop 0: invariant forall j :: 0 <= j && j <= rangeindex ==> quoteSvn[j] >= optionSvn[j]
 
 //@ define minOK(q, o) = svnGE(q.TdQuoteBody.TeeTcbSvn, o.TdQuoteBodyOptions.MinimumTeeTcbSvn)
 //@ |   && rd16(seq(q.Header.QeSvn), 0) >= o.HeaderOptions.MinimumQeSvn && rd16(seq(q.Header.PceSvn), 0) >= o.HeaderOptions.MinimumPceSvn
